@@ -346,6 +346,57 @@ def kernelIn : Backend → Nat
 def kernelOut : Backend → Nat
   | .epoll => 4 | .poll => 4 | .select => 2
 
+/-! ## epoll back-end: the per-descriptor cache `events_` and the kernel's interest list
+
+`epoll_reactor::select(fd,flags)` decides between EPOLL_CTL_DEL / ADD / MOD by comparing `flags` with its own cache
+`events_[fd]`, not with the kernel.  Here the kernel is modelled too (it is what the cache is about): `kreg fd` is the
+interest set epoll holds for the open file behind number `fd`; closing the descriptor drops it; a number can be
+handed out again. -/
+
+structure Epoll where
+  cache : Nat → Nat              -- events_[fd]
+  kreg : Nat → Option Nat        -- kernel: registered interest set of the open descriptor `fd`
+  isOpen : Nat → Bool
+
+def upd {α : Type} (f : Nat → α) (i : Nat) (v : α) : Nat → α := fun j => if j = i then v else f j
+
+/-- epoll_ctl(ADD): EBADF on a closed descriptor, EEXIST if already registered -/
+def ctlAdd (e : Epoll) (fd flags : Nat) : (Nat → Option Nat) × Bool :=
+  if e.isOpen fd && (e.kreg fd).isNone then (upd e.kreg fd (some flags), true) else (e.kreg, false)
+/-- epoll_ctl(MOD): EBADF / ENOENT if not registered -/
+def ctlMod (e : Epoll) (fd flags : Nat) : (Nat → Option Nat) × Bool :=
+  if e.isOpen fd && (e.kreg fd).isSome then (upd e.kreg fd (some flags), true) else (e.kreg, false)
+/-- epoll_ctl(DEL): EBADF / ENOENT if not registered -/
+def ctlDel (e : Epoll) (fd : Nat) : (Nat → Option Nat) × Bool :=
+  if e.isOpen fd && (e.kreg fd).isSome then (upd e.kreg fd none, true) else (e.kreg, false)
+
+/-- `epoll_reactor::select`; second component: no error reported -/
+def epSelect (e : Epoll) (fd flags : Nat) : Epoll × Bool :=
+  let c := e.cache fd
+  let r : (Nat → Option Nat) × Bool :=
+    if c ≠ 0 ∧ flags = 0 then ctlDel e fd
+    else if c = 0 ∧ flags ≠ 0 then ctlAdd e fd flags
+    else if c ≠ flags then ctlMod e fd flags
+    else (e.kreg, true)
+  ({ e with kreg := r.1, cache := if r.2 || Gen.epollRecordsOnError then upd e.cache fd flags else e.cache }, r.2)
+
+inductive EpOp
+  | sel (fd flags : Nat)     -- the reactor is asked for a new interest set
+  | closeFd (fd : Nat)       -- the application closes the descriptor: the kernel forgets it
+  | reuse (fd : Nat)         -- a new descriptor gets the number; only after the loop has processed the cancel
+                             -- (`select(fd,0)`, i.e. cache = 0): the FIFO dispatch queue guarantees that order
+
+def epStep (e : Epoll) : EpOp → Epoll
+  | .sel fd fl => (epSelect e fd fl).1
+  | .closeFd fd => { e with isOpen := upd e.isOpen fd false, kreg := upd e.kreg fd none }
+  | .reuse fd => if e.isOpen fd = false ∧ e.cache fd = 0 then { e with isOpen := upd e.isOpen fd true } else e
+
+def epRun (e : Epoll) (ops : List EpOp) : Epoll := ops.foldl epStep e
+
+def epInit (opened : Nat → Bool) : Epoll := { cache := fun _ => 0, kreg := fun _ => none, isOpen := opened }
+
+def kflags (e : Epoll) (fd : Nat) : Nat := (e.kreg fd).getD 0
+
 /-! ## thread pool (`cppcms::impl::thread_pool`) -/
 
 structure Job where
